@@ -32,7 +32,7 @@ CHECKS = {
    "Trusted: chaotic device keeps eventually completing (blocking calls can end); caller honours the unsafe contracts; spin-budget exhaustion, timeouts and OOM are exit 2. Two recorded open findings are excluded by signature and counted.",
    "proptest + coverage-guided libFuzzer/ASan over one byte decoder; ledger/allocator-interposer/ASan oracles; differential clean vs scribbled run"),
  "C08": ("driver-sim", "exploration", "4 C08",
-   "All 11 constructors x 5 transports x every subset of the feature bits the driver inspects (alone and with unsupported noise bits, plus all-ones; random 64-bit sets on top): an automaton over the ordered transport trace checks reset -> ACKNOWLEDGE|DRIVER -> feature read -> accepted subset of offered and implemented, VERSION_1 iff offered, no ring-format bits -> FEATURES_OK -> queues -> DRIVER_OK and no notification before DRIVER_OK; a short usage phase on the driver's reference device judges the feature-gated behaviour (indirect descriptors, flush, console size/emergency write, EDID, net header size).",
+   "All 11 constructors x 5 transports x every subset of the feature bits the driver inspects (alone and with unsupported noise bits, plus all-ones; random 64-bit sets on top), also against a device that refuses the feature subset (FEATURES_OK never reads back as set): an automaton over the ordered transport trace checks reset -> ACKNOWLEDGE|DRIVER -> feature read -> accepted subset of offered and implemented, VERSION_1 iff offered, no ring-format bits -> FEATURES_OK -> queues -> DRIVER_OK and no notification before DRIVER_OK; a short usage phase on the driver's reference device judges the feature-gated behaviour (indirect descriptors, flush, console size/emergency write -- also when a formatted write fails because the device completes a chain that was not submitted --, EDID, net header size).",
    "Trusted: transport models map register writes to the same abstract events; 'supports' = each driver's current SUPPORTED_FEATURES. Subsets of inspected bits are enumerated completely; arbitrary 64-bit sets are sampled.",
    "exhaustive configuration enumeration + proptest, ordered-trace automaton oracle + reference devices"),
  "C09": ("driver-sim", "fault_enumeration", "4 C09",
@@ -52,15 +52,15 @@ CHECKS = {
    "Trusted: reference PCI function model. cam_offset part is exhaustive; BAR sets and populations are sampled.",
    "proptest over BAR encodings/bus populations + exhaustive address-tuple enumeration, reference-model oracle"),
  "C13": ("config-space", "exploration", "4 C13",
-   "Bounds: exhaustive grid of window sizes, access types, offsets (incl. offsets whose end overflows usize) on MMIO legacy/modern and PCI with an exact byte-coverage oracle on the bus trace. Torn reads: the five multi-field reads of the drivers with the device switching self-identifying snapshots before every single access index, every pair, and generated larger sets; the result must be one exposed snapshot.",
+   "Bounds: exhaustive grid of window sizes, access types, offsets (incl. offsets whose end overflows usize) on MMIO legacy/modern and PCI with an exact byte-coverage oracle on the bus trace. Torn reads: the five multi-field reads of the drivers with the device switching self-identifying snapshots before every single access index, every pair, every triple among the first accesses with snapshots that alternate between two whole values, and generated larger sets; the result must be one exposed snapshot.",
    "Trusted: bus trace, emulated config window, snapshot scheduler. Legacy MMIO has no generation counter: untorn reads not asserted there.",
    "exhaustive grid enumeration + schedule enumeration of device-side config updates, snapshot-membership oracle"),
  "C14": ("driver-sim", "exploration", "4 C14",
-   "Generated histories of blocking and non-blocking block operations against a reference block device that parses every chain (header, data direction/size, status byte) and an in-memory disk compared at the end; injected statuses; device-chosen completion order for up to a queue-full of outstanding requests; all transports, feature sets and device servicing policies.",
+   "Generated histories of blocking and non-blocking block operations against a reference block device that parses every chain (header, data direction/size, status byte) and an in-memory disk compared at the end; injected statuses; device-chosen completion order for up to a queue-full of outstanding requests, with completion attempts for requests that are not at the front of the used ring (must fail and leave the posted buffers alone: the ledger reports a store into a device-writable buffer that is still shared); all transports, feature sets and device servicing policies.",
    "Trusted: reference block device written from virtio-blk 5.2; blocking calls only while nothing non-blocking is outstanding (documented precondition).",
    "proptest histories + reference device (differential in-memory disk)"),
  "C15": ("driver-sim", "exploration", "4 C15",
-   "Generated device byte streams (chunks 1..4096) and interleavings of every receive/peek/buffered-read/ready/ack/send call with deliveries at generated moments and during blocking reads; oracle = stream equality, one outstanding receive buffer, re-post only after full consumption, exact transmit chains.",
+   "Generated device byte streams (chunks 1..4096) and interleavings of every receive/peek/buffered-read/ready/ack/send call with deliveries at generated moments and during blocking reads; oracle = stream equality, one outstanding receive buffer, re-post only after full consumption, exact transmit chains (formatted output with pieces of up to 5000 bytes compared as a byte stream), configuration space written only by a negotiated emergency write (also when the transmit fails).",
    "Trusted: reference console device; blocking reads issued only while the device still has data.",
    "proptest histories + reference device (stream-equality oracle)"),
  "C16": ("driver-sim", "exploration", "4 C16",
@@ -76,11 +76,11 @@ CHECKS = {
    "Trusted: connection-table model; duplicate REQUESTs for an existing connection and results after peer shutdown are outside the property and not generated/compared.",
    "proptest histories + lock-step reference model"),
  "C19": ("driver-sim", "exploration", "4 C19",
-   "OwningQueue for 12 (N,B) instantiations, the input driver and the sound driver's notification queue: device completes any posted buffer in any order, bursts and up to 300 burst/drain rounds; deliveries must equal completions in used-ring order with the written bytes; each delivered buffer is re-posted immediately under the same token and caller address; posted + pending = N.",
+   "OwningQueue for 12 (N,B) instantiations, the input driver and the sound driver's notification queue: device completes any posted buffer in any order, bursts and up to 300 burst/drain rounds; deliveries must equal completions in used-ring order with the written bytes (a completion that overstates its length may only yield an error, nothing, or the clamped whole buffer); each delivered buffer is re-posted immediately under the same token and caller address; posted + pending = N.",
    "Trusted: reference event device and ledger (buffer identity via caller address).",
    "proptest histories + reference device (order/once/replenish invariants)"),
  "C20": ("driver-sim", "exploration", "4 C20",
-   "Reference GPU, sound, entropy, clock and 9P devices decode every chain against independently written specification structures, enforce command ordering, inject error/unknown/wrong-success responses, complete PCM transfers with generated lag or in device-chosen order, serve arbitrary EDID blobs judged by an independent decoder; the ledger reports GPU backing released while attached.",
+   "Reference GPU, sound, entropy, clock and 9P devices decode every chain against independently written specification structures, enforce command ordering, inject error/unknown/wrong-success responses, complete PCM transfers (any length, and whole numbers of periods around the queue size) with generated lag or in device-chosen order, check jack remapping on jacks that do / do not advertise it, serve arbitrary EDID blobs judged by an independent decoder; the ledger reports GPU backing released while attached.",
    "Trusted: reference devices from the specs (virtio-gpu, virtio-snd, entropy, rtc draft, 9p transport); lifetime/ordering oracles only while no device error occurred, as the property states.",
    "proptest histories + reference devices (spec-structure decode, lifetime ledger, independent EDID decoder)"),
 }
